@@ -21,7 +21,14 @@ def hooks_factory(state):
             state['bytes'].append(v)
             return None
         if kind == 'method' and name == 'write' and 'ostream' in t:
-            state['bytes'].append(('write', [I.expr(a, env) for a in args[1:]]))
+            src = I.expr(args[0], env)
+            rest = [I.expr(a, env) for a in args[1:]]
+            chars = ivinterp.str_chars(src) if isinstance(src, tuple) else None
+            if chars is not None and len(rest) == 1 and isinstance(rest[0], IV) and rest[0].concrete() and rest[0].lo == len(chars):
+                # write(s.data(), s.size()) of a string assembled character by character: the same bytes as one put() each
+                state['bytes'].extend(chars)
+                return None
+            state['bytes'].append(('write', rest))
             return None
         if kind == 'method' and name == 'push_back' and 'pair' in t:
             state.setdefault('pushed', []).append(True)
